@@ -33,6 +33,11 @@ def small_package(ctx, max_modules=4, max_exts=3):
         sim.run()
         if ch.coin(1, 2, "module-name"):
             sim.module.metadata["name"] = ch.pick(["m", "né ☃", ""], "name")
+        if ch.coin(1, 12, "big-module"):
+            # a payload well beyond any internal block size (200 kB of poorly compressible text)
+            blob = "".join(chr(33 + (i * 7919 + i // 13) % 90) for i in range(200_000))
+            sim.module.metadata["blob"] = blob
+            ctx.probe("payload_over_128KiB")
         modules.append(sim.hugr)
     exts = []
     if ch.draw(max_exts + 1, "n-exts"):
@@ -40,6 +45,15 @@ def small_package(ctx, max_modules=4, max_exts=3):
         for _ in range(1 + ch.draw(6, "ext-steps")):
             sess.step()
         exts = sess.exts[:max_exts]
+        if exts and ch.coin(1, 5, "repeat-extension"):
+            # the same extension listed twice, or an older version of it under the same name
+            if ch.coin(1, 2, "same-object"):
+                exts.append(exts[0])
+            else:
+                from semver import Version
+                from hugr.ext import Extension
+                exts.append(Extension(exts[0].name, Version(9, 9, 9)))
+            ctx.probe("package_repeats_an_extension_name")
     return Package(modules, exts)
 
 
@@ -113,6 +127,7 @@ def run(ctx):
         ctx.violate("encode", f"to_bytes-raised:{type(e).__name__}", {"zstd": level, "error": str(e)[:200]})
         return
     ctx.ev("writer", "to_bytes", {"zstd": level, "default": default_cfg}, len(data))
+    want_data = want  # what `data` encodes (the package may be mutated and re-encoded below)
     ctx.checked("header")
     if data[:8] != MAGIC:
         ctx.violate("header", "magic", {"got": repr(data[:8])})
@@ -126,6 +141,15 @@ def run(ctx):
         ctx.violate("header", "payload-not-zstd-despite-flag", {"zstd": level})
     if level is None and data[10:11] != b"{":
         ctx.violate("header", "payload-not-plain-json", {})
+    # the payload is a JSON document (RFC 8259: no NaN / Infinity tokens)
+    from ..oracles import wire
+    ctx.checked("payload-json")
+    try:
+        wire.strict_loads(pyzstd.decompress(data[10:]) if level is not None else data[10:])
+    except wire.NotJson as e:
+        ctx.violate("roundtrip", "payload-is-not-json", {"zstd": level, "error": str(e)})
+    except Exception:  # noqa: BLE001  (judged by the round trip below)
+        pass
     cross = ch.coin(1, 4, "cross-restart")
     ctx.checked("roundtrip")
     if cross:
@@ -248,6 +272,13 @@ def run(ctx):
             bad[i] ^= 1 << ch.draw(8, "flip-bit")
             kind, res = decode(bytes(bad))
             ctx.fault("payload_bit_flip")
+        # fault, then workload: a failed read must not poison the next read of an intact envelope
+        ctx.checked("read-after-failed-read")
+        kind2, res2 = decode(data)
+        if kind2 != "ok":
+            ctx.violate("roundtrip", f"intact-envelope-rejected-after-a-failed-read:{res2 if kind2 == 'other' else kind2}", {"zstd": level, "first": kind})
+        elif docs_of(res2) != want_data:
+            ctx.violate("roundtrip", "intact-envelope-differs-after-a-failed-read", {"zstd": level})
         if kind == "ok" and docs_of(res) != want:
             ctx.probe("payload_fault_decoded_to_different_package")
         elif kind == "ok":
